@@ -92,6 +92,9 @@ type Session struct {
 
 	// Segment > 0: everything the broker sends arrives in two TCP segments, the second one Segment later.
 	Segment    time.Duration
+	// LongForm: the scripted client encodes its datagrams with the 3-byte Length field:
+	// 1 = all of them, 2 = all but CONNECT, 3 = DISCONNECT only.
+	LongForm int
 	segQ       [][]byte
 	segRunning bool
 }
@@ -273,7 +276,14 @@ func (s *Session) Ended() bool { s.mu.Lock(); defer s.mu.Unlock(); return s.ende
 func (s *Session) SNSend(b []byte) { s.SN.A.Write(b) }
 
 // SNSendP sends an encoded reference packet.
-func (s *Session) SNSendP(p *snref.Pkt) { s.SN.A.Write(p.Encode()) }
+func (s *Session) SNSendP(p *snref.Pkt) {
+	if s.LongForm == 1 || (s.LongForm == 2 && p.Type != snref.CONNECT) || (s.LongForm == 3 && p.Type == snref.DISCONNECT) {
+		// the 3-byte Length form, which MQTT-SN 1.2 (5.2.1) also allows for datagrams shorter than 256 bytes
+		s.SN.A.Write(snref.FrameLong(p.Type, p.EncodeBody()))
+		return
+	}
+	s.SN.A.Write(p.Encode())
+}
 
 // MQSend sends bytes from the broker to the gateway.
 func (s *Session) MQSend(b []byte) {
